@@ -5,6 +5,8 @@ V = os.path.dirname(os.path.dirname(os.path.abspath(__file__)))
 NOTE = ("Trusted base: rustc nightly front end as driven by /verif/driver (typed HIR + MIR facts of the real cargo build of /repo's working tree), "
         "the may-depend flow evaluator and the obligation/pairing tables in /verif/rules. Decides structural necessary conditions only; the behavioural statement itself is not decided.")
 CLAIMED = {
+ 'C01': ('generator read-set vs declared-dependency data-flow over all SimpleGenerator impls, transcript alignment prover~verifier, quotient-domain obligations, sibling guard-signature comparison',
+         'Static: all 24 witness generators read only targets derived from what dependencies() declares; prover and verifier transcripts align; the prover evaluates Z_H / points on the quotient coset; base and extension arithmetic folding shortcuts have identical (operand, guard) signatures. That proving succeeds with correct outputs for every program/input/configuration is behavioural and not decided.', '5/C01'),
  'C02': ('obligation tables over typed HIR data-flow (native PLONK verifier, three vanishing evaluators, gate filter, public-input wiring, copy-class handling), call-order rules',
          'Static: the quotient identity is checked for every challenge with all openings and challenges entering the vanishing evaluation; all four vanishing term groups and alpha reach the value returned by each of the three evaluators; the selector filter multiplies every gate constraint; every gate is evaluated; the public-input hash is wired to the PublicInputGate; conflicting copy-class assignments are refused; sigma is built from merged, compressed classes. Sufficiency of the constraint system is not decided.', '5/C02'),
  'C03': ('dead-field analysis over the verifier closure (typed HIR data-flow), type-driven length-pin coverage, FRI/PLONK obligation tables',
